@@ -23,6 +23,7 @@ import (
 	"verifharness/hx"
 
 	v1 "github.com/fatedier/frp/pkg/config/v1"
+	"github.com/fatedier/frp/pkg/msg"
 )
 
 func init() { drivers["shared_port"] = runSharedPort }
@@ -445,18 +446,11 @@ func sharedPortWorld(g *hx.Gen, dist map[string]int, nreq int) ([]string, error)
 	// --- TLS ClientHellos on the shared port ---
 	{
 		ops := addOps(httpsRoutes)
-		for i := 0; i < nreq/2; i++ {
-			h, _, _ := reqFor(g, liveOf(httpsRoutes), reqHosts)
-			for h == "" || strings.HasPrefix(h, ".") || strings.Contains(h, "..") || strings.Contains(h, "*") || h[0] >= '0' && h[0] <= '9' {
-				h = g.Pick(reqHosts)
-			}
-			if g.Chance(0.2) {
-				h = strings.ToUpper(h)
-			}
+		hello := func(h string) error {
 			drain()
 			c, err := net.DialTimeout("tcp", front, 2*time.Second)
 			if err != nil {
-				return nil, err
+				return err
 			}
 			_ = c.SetDeadline(time.Now().Add(3 * time.Second))
 			herr := tls.Client(c, &tls.Config{ServerName: h, InsecureSkipVerify: true}).Handshake()
@@ -474,6 +468,53 @@ func sharedPortWorld(g *hx.Gen, dist map[string]int, nreq int) ([]string, error)
 			}
 			dist["shared-port clienthello"]++
 			ops = append(ops, fmt.Sprintf("OVhost false %s [] [] %s", hx.HxS(h), optZ(lbl, ok)))
+			return nil
+		}
+		for i := 0; i < nreq/2; i++ {
+			h, _, _ := reqFor(g, liveOf(httpsRoutes), reqHosts)
+			for h == "" || strings.HasPrefix(h, ".") || strings.Contains(h, "..") || strings.Contains(h, "*") || h[0] >= '0' && h[0] <= '9' {
+				h = g.Pick(reqHosts)
+			}
+			if g.Chance(0.2) {
+				h = strings.ToUpper(h)
+			}
+			if err := hello(h); err != nil {
+				return nil, err
+			}
+		}
+		// a SECOND session asks for an https host that is already owned (real HTTPSProxy.Run): it must be
+		// refused, the owner's route must keep receiving ClientHellos, and a retry must be refused again
+		if len(httpsRoutes) > 0 {
+			peer, lresp, err := srv.Login(hx.LoginOpts{RunID: "c06-second-session"})
+			if err != nil || peer == nil {
+				return nil, fmt.Errorf("second session login: %v %v", err, lresp)
+			}
+			defer peer.Close()
+			t := httpsRoutes[g.Intn(len(httpsRoutes))].t
+			target := t.d
+			switch {
+			case t.d == "*":
+				target = "any.example.net"
+			case strings.HasPrefix(t.d, "*."):
+				target = "dup" + t.d[1:]
+			}
+			for attempt := int64(0); attempt < 2; attempt++ {
+				dom := t.d
+				if g.Chance(0.4) {
+					dom = strings.ToUpper(dom)
+				}
+				r, err := peer.NewProxy(&msg.NewProxy{ProxyName: "c06-dup-https", ProxyType: "https", CustomDomains: []string{dom}})
+				if err != nil {
+					return nil, fmt.Errorf("second session NewProxy: %v", err)
+				}
+				dist["https host asked for by a second session"]++
+				ops = append(ops, fmt.Sprintf("OAdd %s [] [] %d %s", hx.HxS(dom), 900+attempt, hx.Bool(r.Error == "")))
+				for k := 0; k < 2; k++ {
+					if err := hello(target); err != nil {
+						return nil, err
+					}
+				}
+			}
 		}
 		cases = append(cases, "CRouter 2 "+hx.List(ops))
 	}
